@@ -418,6 +418,15 @@ termination_by fl.count
 decreasing_by
   all_goals simp [Flags.count, h]
 
+/-- the code behind the `loop` of `next_header`: an error `return`ed from inside the loop is passed
+    on, after a `break` the outstanding flags are checked ("assume all done"). -/
+def finishWalk : Except (Fault WalkErr) (Flags × Nat) → Except (Fault WalkErr) Nat
+  | .error f => .error f
+  | .ok (fl, next) =>
+    match fl.check with
+    | .error f => .error f
+    | .ok () => .ok next
+
 /-- `Ipv6Extensions::next_header` -/
 def Exts.nextHeader (e : Exts) (firstNextHeader : Nat) : Except (Fault WalkErr) Nat :=
   let fl := Flags.ofExts e
@@ -428,12 +437,7 @@ def Exts.nextHeader (e : Exts) (firstNextHeader : Nat) : Except (Fault WalkErr) 
       | some header => ({ fl with hopByHopOptions := false }, header.nextHeader)
       | none => (fl, firstNextHeader)
     else (fl, firstNextHeader)
-  match nextHeaderLoop e fl false next with
-  | .error f => .error f
-  | .ok (fl, next) =>
-    match fl.check with
-    | .error f => .error f
-    | .ok () => .ok next
+  finishWalk (nextHeaderLoop e fl false next)
 
 /-! ### `write_internal` / `write` (into a writer that never fails; I/O faults are C16) -/
 
@@ -482,6 +486,11 @@ termination_by fl.count
 decreasing_by
   all_goals simp [Flags.count, h]
 
+/-- the code behind the `loop` of `write_internal` ("check that all header have been written"). -/
+def finishWrite : Bytes × Except (Fault WalkErr) (Flags × Nat) → Bytes × Except (Fault WalkErr) Unit
+  | (out, .error f) => (out, .error f)
+  | (out, .ok (fl, _)) => (out, fl.check)
+
 /-- `Ipv6Extensions::write`: bytes handed to the writer (also in the error case) and the result. -/
 def Exts.write (e : Exts) (firstHeader : Nat) : Bytes × Except (Fault WalkErr) Unit :=
   let fl := Flags.ofExts e
@@ -491,9 +500,7 @@ def Exts.write (e : Exts) (firstHeader : Nat) : Bytes × Except (Fault WalkErr) 
       | some header => ({ fl with hopByHopOptions := false }, header.nextHeader, header.toBytes)
       | none => (fl, firstHeader, [])
     else (fl, firstHeader, [])
-  match writeLoop e fl false out next with
-  | (out, .error f) => (out, .error f)
-  | (out, .ok (fl, _)) => (out, fl.check)
+  finishWrite (writeLoop e fl false out next)
 
 /-! ### `is_fragmenting_payload` -/
 
